@@ -18,14 +18,14 @@ def rewrite(cond, prefix):
     return re.sub(r"[A-Za-z0-9_*\-]+", tok, cond)
 
 
-def expand_selectors(cond, names):
+def expand_selectors(cond, names, underscore_rule=True):
     """replace every selector of a rule condition by the explicit OR / AND of the rule's OWN matching detections (no capture possible)"""
     import fnmatch
 
     def sel(m):
         q, pat = m.group(1), m.group(2)
         glob = "*" if pat == "them" else pat
-        ms = [n for n in names if fnmatch.fnmatchcase(n, glob) and (pat.startswith("_") or not n.startswith("_"))]
+        ms = [n for n in names if fnmatch.fnmatchcase(n, glob) and (not underscore_rule or pat.startswith("_") or not n.startswith("_"))]
         if not ms:
             return m.group(0)
         return "(" + (" and " if q == "all" else " or ").join(ms) + ")"
@@ -55,7 +55,9 @@ class C11Bounded(Bounded):
         filt_dets = [({"sel": {"u": "adm"}}, "not sel"), ({"sel": {"u": "adm"}, "svc_proc": {"i": "x"}}, "not (sel or svc_proc)"), ({"f1": {"u": 1}, "f2": {"w": 2}}, "not 1 of them"),
                      ({"f_a": {"u": 1}, "f_b": {"w": 2}}, "not all of f_*"), ({"a_allow": {"u": 1}, "b_allow": {"w": 2}}, "not 1 of *_allow"), ({"2sel": {"u": 1}}, "not 2sel"),
                      ({"_sel": {"u": 1}}, "not _sel"), ({"android": {"u": 1}}, "not android"), ({"sel": {"u": 1}}, "sel"), ({"f1": {"u": 1}, "f2": {"w": 2}}, "(not f1) or (not f2)"),
-                     ({"f1": {"u": 1}, "f2": {"w": 2}}, "not 1 of *"), ({"allow_a": {"u": 1}, "al_x_ow_a": {"w": 2}, "alow_b": {"x": 3}}, "not 1 of al*ow_a"), ({"f1": {"u": 1}, "f2": {"w": 2}}, "not all of *")]
+                     ({"f1": {"u": 1}, "f2": {"w": 2}}, "not 1 of *"), ({"allow_a": {"u": 1}, "al_x_ow_a": {"w": 2}, "alow_b": {"x": 3}}, "not 1 of al*ow_a"), ({"f1": {"u": 1}, "f2": {"w": 2}}, "not all of *"),
+                     # (a pattern covers exactly the names it matches as a whole: `*_allow` does not cover `allow`, `a*a` not `a`)
+                     ({"allow": {"u": 1}, "x_allow": {"w": 2}}, "not 1 of *_allow"), ({"a": {"u": 1}, "aa": {"w": 2}, "aba": {"x": 3}}, "not all of a*a")]
         logsources = [({"category": "c", "product": "p"}, {"category": "c"}), ({"category": "c", "product": "p"}, {"product": "p"}), ({"category": "c"}, {"category": "c", "product": "p"}),
                       ({"category": "c", "product": "p", "service": "s"}, {"category": "c", "product": "p", "service": "s"}), ({"category": "c"}, {"category": "d"})]
         targets = ["any", "byname", "byname_scalar", "any_scalar_upper", "byid", "byid_scalar", "byID_upper", "other"]
@@ -97,7 +99,7 @@ class C11Bounded(Bounded):
                 ref_rule = copy.deepcopy(rule)
                 for n, d in fd.items():
                     ref_rule["detection"]["_zzfilt_" + n] = copy.deepcopy(d)
-                ref_rule["detection"]["condition"] = f"({expand_selectors(rc, list(rd))}) and ({rewrite(fc, '_zzfilt_')})"
+                ref_rule["detection"]["condition"] = f"({expand_selectors(rc, list(rd))}) and ({rewrite(expand_selectors(fc, list(fd), underscore_rule=False), '_zzfilt_')})"
                 want = b().convert(SigmaCollection.from_dicts([ref_rule, copy.deepcopy(other)]))
             else:
                 want = base
